@@ -859,7 +859,7 @@ namespace avel {
         scatter(ptr, v, indices, N);
     }
 
-    AVEL_FINL void scatter(std::int32_t* ptr, vec16x32i indices, vec16x32i v) {
+    AVEL_FINL void scatter(std::int32_t* ptr, vec16x32i v, vec16x32i indices) {
         #if defined(AVEL_AVX512F)
         _mm512_i32scatter_epi32(ptr, decay(indices), decay(v), sizeof(std::int32_t));
         #endif
